@@ -1,0 +1,136 @@
+//go:build verif
+
+package rhp
+
+// Machine-checked contracts for package rhp (RHP4 renter and host), read by
+// /verif/gocv. Comments only; compiled solely under the build tag "verif".
+//
+// Assumed contracts on go.sia.tech/core/rhp/v4 (A1/A2): verifiers, hashes and the
+// revision builders are deterministic functions of their arguments; what they compute is
+// trusted. Whatever a peer sends (ReadResponse / ReadRequest fill the message with arbitrary
+// content) is unconstrained: that *is* the Byzantine counterpart.
+//
+//@ extern rhp4.VerifyFreeSectorsProof pure
+//@ extern rhp4.VerifyAppendSectorsProof pure
+//@ extern rhp4.VerifyLeafProof pure
+//@ extern rhp4.VerifySectorRootsProof pure
+//@   requires [range] numSectors == 0 || (len(sectorRoots) == end - start && end <= numSectors && start < end)
+//@ extern rhp4.ReviseForFreeSectors pure
+//@ extern rhp4.ReviseForAppendSectors pure
+//@ extern rhp4.ReviseForSectorRoots pure
+//@   ensures result0.Filesize == fc.Filesize
+//@ extern (*rhp4.RPCSectorRootsRequest).Validate
+//@   assigns nothing
+//@   ensures result == nil ==> req.Length > 0 && req.Offset <= fc.Filesize / rhp4.SectorSize && req.Length <= fc.Filesize / rhp4.SectorSize - req.Offset
+//@ extern rhp4.ReviseForFundAccounts pure
+//@ extern rhp4.ReviseForReplenish pure
+//@ extern (consensus.State).ContractSigHash pure
+//@ extern (types.PublicKey).VerifyHash pure
+//@ extern (types.Currency).Cmp pure
+//@ extern (types.Currency).Mul64 pure
+//@ extern (types.Currency).Add pure
+//@ extern (types.Currency).IsZero pure
+//@ extern (*rhp4.RPCReplenishAccountsResponse).TotalCost pure
+//@ extern (rhp4.HostPrices).RPCReadSectorCost pure
+//@ extern (rhp4.HostPrices).RPCWriteSectorCost pure
+//@ extern (rhp4.HostPrices).RPCVerifySectorCost pure
+//
+// Message I/O: writing only reads the message; reading fills exactly the message object (with
+// arbitrary content) and nothing else the caller can see.
+//@ extern rhp4.WriteRequest
+//@   assigns nothing
+//@ extern rhp4.WriteResponse
+//@   assigns nothing
+//@ extern rhp4.ReadResponse
+//@   assigns pointee:o
+//@ extern rhp4.ReadRequest
+//@   assigns pointee:o
+//@ iface net.Conn.Close
+//@   assigns nothing
+//@ func openStream
+//@   assigns nothing
+//@   ensures result1 == nil ==> result0 != nil
+//@ func clientErr
+//@   assigns nothing
+//@   ensures result != nil
+//@ func clientErrf
+//@   assigns nothing
+//@   ensures result != nil
+//@ func callSingleRoundtripRPC props C10
+//@   requires t != nil
+//@   assigns pointee:resp
+//
+// Two contracts have the same terms when they agree on everything but the signatures.
+//@ pred sameTerms(a types.V2FileContract, b types.V2FileContract) = a.Capacity == b.Capacity && a.Filesize == b.Filesize && a.FileMerkleRoot == b.FileMerkleRoot
+//@   && a.ProofHeight == b.ProofHeight && a.ExpirationHeight == b.ExpirationHeight && a.RenterOutput == b.RenterOutput && a.HostOutput == b.HostOutput
+//@   && a.MissedHostValue == b.MissedHostValue && a.TotalCollateral == b.TotalCollateral && a.RenterPublicKey == b.RenterPublicKey && a.HostPublicKey == b.HostPublicKey
+//@   && a.RevisionNumber == b.RevisionNumber
+// The host signature that was accepted is over the hash of exactly the locally built revision,
+// checked with the host key of the contract the renter holds.
+//@ pred hostSigned(host types.PublicKey, local types.V2FileContract, returned types.V2FileContract) = called("VerifyHash") && callres("VerifyHash")
+//@   && callarg("VerifyHash", 0) == host && callarg("VerifyHash", 1) == callres("ContractSigHash") && callarg("VerifyHash", 2) == returned.HostSignature
+//@   && callarg("ContractSigHash", 1) == local && sameTerms(returned, local)
+//
+// ---------------------------------------------------------------------------
+// C10: a successful renter RPC is bound to verified data, whatever the host sent
+//
+//@ func RPCFreeSectors props C10
+//@   nopanic
+//@   requires t != nil && signer != nil
+//@   ensures [proof] result1 == nil ==> called("VerifyFreeSectorsProof") && callres("VerifyFreeSectorsProof")
+//@        && callarg("VerifyFreeSectorsProof", 3) == contract.Revision.Filesize / rhp4.SectorSize
+//@        && callarg("VerifyFreeSectorsProof", 4) == contract.Revision.FileMerkleRoot
+//@        && callarg("VerifyFreeSectorsProof", 5) == callarg("ReviseForFreeSectors", 2)
+//@   ensures [revision] result1 == nil ==> called("ReviseForFreeSectors") && callres("ReviseForFreeSectors", 2) == nil
+//@        && callarg("ReviseForFreeSectors", 0) == contract.Revision && callarg("ReviseForFreeSectors", 1) == prices
+//@        && result0.Usage == callres("ReviseForFreeSectors", 1)
+//@   ensures [hostsig] result1 == nil ==> hostSigned(contract.Revision.HostPublicKey, callres("ReviseForFreeSectors", 0), result0.Revision)
+//
+//@ func RPCAppendSectors props C10
+//@   nopanic
+//@   requires t != nil && signer != nil
+//@   requires contract.Revision.Filesize <= 1 << 62
+//@   loop "range resp.Accepted"
+//@     invariant -1 <= rangeindex && rangeindex < len(resp.Accepted) && len(resp.Accepted) == len(roots)
+//@   ensures [proof] result1 == nil ==> called("VerifyAppendSectorsProof") && callres("VerifyAppendSectorsProof")
+//@        && callarg("VerifyAppendSectorsProof", 0) == (contract.Revision.Filesize + rhp4.SectorSize - 1) / rhp4.SectorSize
+//@        && callarg("VerifyAppendSectorsProof", 3) == contract.Revision.FileMerkleRoot
+//@        && callarg("VerifyAppendSectorsProof", 4) == callarg("ReviseForAppendSectors", 2)
+//@        && callarg("VerifyAppendSectorsProof", 2) == result0.Sectors
+//@   ensures [revision] result1 == nil ==> called("ReviseForAppendSectors") && callres("ReviseForAppendSectors", 2) == nil
+//@        && callarg("ReviseForAppendSectors", 0) == contract.Revision && callarg("ReviseForAppendSectors", 1) == prices
+//@        && callarg("ReviseForAppendSectors", 3) == len(result0.Sectors)
+//@        && result0.Usage == callres("ReviseForAppendSectors", 1)
+//@   ensures [hostsig] result1 == nil ==> hostSigned(contract.Revision.HostPublicKey, callres("ReviseForAppendSectors", 0), result0.Revision)
+//
+//@ func RPCFundAccounts props C10
+//@   nopanic
+//@   requires t != nil && signer != nil
+//@   loop "range deposits"
+//@     invariant -1 <= rangeindex && rangeindex < len(deposits)
+//@   loop "range deposits" #2
+//@     invariant -1 <= rangeindex && rangeindex < len(deposits) && len(resp.Balances) == len(deposits)
+//@   ensures [revision] result1 == nil ==> called("ReviseForFundAccounts") && callres("ReviseForFundAccounts", 2) == nil
+//@        && callarg("ReviseForFundAccounts", 0) == contract.Revision && result0.Usage == callres("ReviseForFundAccounts", 1)
+//@   ensures [hostsig] result1 == nil ==> hostSigned(contract.Revision.HostPublicKey, callres("ReviseForFundAccounts", 0), result0.Revision)
+//
+//@ func RPCSectorRoots props C10
+//@   nopanic
+//@   requires t != nil && signer != nil
+//@   requires contract.Revision.Filesize <= 1 << 62
+//@   ensures [proof] result1 == nil ==> called("VerifySectorRootsProof") && callres("VerifySectorRootsProof")
+//@        && callarg("VerifySectorRootsProof", 1) == result0.Roots
+//@        && callarg("VerifySectorRootsProof", 2) == (contract.Revision.Filesize + rhp4.SectorSize - 1) / rhp4.SectorSize
+//@        && callarg("VerifySectorRootsProof", 3) == offset && callarg("VerifySectorRootsProof", 4) == offset + length
+//@        && callarg("VerifySectorRootsProof", 5) == contract.Revision.FileMerkleRoot
+//@   ensures [revision] result1 == nil ==> called("ReviseForSectorRoots") && callres("ReviseForSectorRoots", 2) == nil
+//@        && callarg("ReviseForSectorRoots", 0) == contract.Revision && callarg("ReviseForSectorRoots", 1) == prices && callarg("ReviseForSectorRoots", 2) == length
+//@        && result0.Usage == callres("ReviseForSectorRoots", 1)
+//@   ensures [hostsig] result1 == nil ==> hostSigned(contract.Revision.HostPublicKey, callres("ReviseForSectorRoots", 0), result0.Revision)
+//
+//@ func RPCVerifySector props C10
+//@   nopanic
+//@   requires t != nil
+//@   ensures [proof] result1 == nil ==> called("VerifyLeafProof") && callres("VerifyLeafProof") && callarg("VerifyLeafProof", 3) == root
+//@        && callarg("VerifyLeafProof", 2) == callres("Uint64n")
+//@   ensures [usage] result1 == nil ==> result0.Usage == prices.RPCVerifySectorCost()
